@@ -209,6 +209,13 @@ def transform(cfg, h, op):
 
     targets = h.histograms if isinstance(h, HistogramCollection) else [h]
     how, arg = op["how"], op["arg"]
+    for t in targets:  # applicability first: a collection is transformed as a whole or not at all
+        if how == "merge" and (isinstance(h, HistogramCollection) or any(s < 2 for s in t.shape)):
+            return False
+        if how == "normalize" and not t.total > 0:
+            return False
+        if how == "set_adaptive_off" and (isinstance(h, HistogramCollection) or not t.is_adaptive()):
+            return False
     for t in targets:
         if how == "merge":
             if isinstance(h, HistogramCollection) or any(s < 2 for s in t.shape):
